@@ -283,6 +283,7 @@ func (r *Reader) writeSwap() {
 
 // Range iterates over parts of the buffer which match the specified chunk.
 func (r *Reader) Range(buf *Buffer, chunk Chunk, fn func(*Reader)) {
+	end := uint32(len(buf.buffer)) // what the delegate appends meanwhile is left to the next pass
 	for i, c := range buf.chunks {
 		if c.Chunk != chunk {
 			continue // Not the right chunk, skip it
@@ -290,8 +291,8 @@ func (r *Reader) Range(buf *Buffer, chunk Chunk, fn func(*Reader)) {
 
 		// Find the next offset
 		r.x0 = uint32(c.Start)
-		r.x1 = uint32(len(buf.buffer))
-		if len(buf.chunks) > i+1 {
+		r.x1 = end
+		if len(buf.chunks) > i+1 && buf.chunks[i+1].Start < end {
 			r.x1 = uint32(buf.chunks[i+1].Start)
 		}
 
